@@ -12,7 +12,7 @@ Lemma rquery_sel kin walias subquery ali c withs distinct selects from joins whe
 Proof.
   unfold sel_render, sel_wns, stmt_srcs, stmt_names. cbn [rquery].
   destruct (name_from sub_count 0 from) as [fnames n1].
-  unfold sel_tk. destruct (name_joins (base_tables from) (src_names from fnames ++ map fst withs) n1 joins) as [jnames n2].
+  unfold sel_tk. destruct (name_joins (base_tables from) (src_names from fnames) n1 joins) as [jnames n2].
   reflexivity.
 Qed.
 Lemma rquery_upd kin walias subquery ali c tbl sets from joins wheres l :
